@@ -497,8 +497,24 @@ Lemma base_col_right_only sb sl sr b r c :
   base_col true sb sl sr b None (Some r) c = Some (gone sb sr b r c).
 Proof. unfold base_col, gone. destruct (col sr r c); reflexivity. Qed.
 
-Theorem row_merge_refines_spec : forall sb sl sr ob ol or,
-  schemas_ok sb sl sr -> conv_ok sl sr ol or -> delete_visible sb sl sr ob ol or ->
+(* the exact boundary of the delete-vs-modify case: the declarative "modified" (any cell of the
+   surviving row, new columns included) coincides with what processBaseColumn inspects (ancestor
+   columns only) *)
+Definition delete_exact (sb sl sr : schema) (ob ol or : option row) : Prop :=
+  match ob, ol, or with
+  | Some b, None, Some r => modified sb sr b r = existsb (gone sb sr b r) sb
+  | Some b, Some l, None => modified sb sl b l = existsb (gone sb sl b l) sb
+  | _, _, _ => True
+  end.
+
+Lemma delete_visible_exact sb sl sr ob ol or :
+  delete_visible sb sl sr ob ol or -> delete_exact sb sl sr ob ol or.
+Proof.
+  unfold delete_visible, delete_exact. destruct ob as [b|], ol as [l|], or as [r|]; auto; apply modified_visible.
+Qed.
+
+Theorem row_merge_refines_spec_exact : forall sb sl sr ob ol or,
+  schemas_ok sb sl sr -> conv_ok sl sr ol or -> delete_exact sb sl sr ob ol or ->
   row_merge true sb sl sr ob ol or
   = ROk (fst (spec_row sb sl sr ob ol or)) (snd (spec_row sb sl sr ob ol or)).
 Proof.
@@ -514,13 +530,13 @@ Proof.
         unfold spec_row. rewrite !merged_schema_same. destruct ob; rewrite C, R; reflexivity.
       * rewrite try_merge_both. unfold spec_row.
         destruct ob; destruct (cellwise_conflict _ _ _ _ _ _); reflexivity.
-    + destruct ob as [b|]; [|discriminate]. cbn [delete_visible] in Dv.
+    + destruct ob as [b|]; [|discriminate]. cbn [delete_exact] in Dv.
       unfold try_merge. rewrite (base_pass_exists _ (gone sb sl b l)) by (intro c; apply base_col_left_only).
-      unfold spec_row. rewrite (modified_visible _ _ _ _ Dv).
+      unfold spec_row. rewrite Dv.
       destruct (existsb (gone sb sl b l) sb); reflexivity.
-    + destruct ob as [b|]; [|discriminate]. cbn [delete_visible] in Dv.
+    + destruct ob as [b|]; [|discriminate]. cbn [delete_exact] in Dv.
       unfold try_merge. rewrite (base_pass_exists _ (gone sb sr b r)) by (intro c; apply base_col_right_only).
-      unfold spec_row. rewrite (modified_visible _ _ _ _ Dv).
+      unfold spec_row. rewrite Dv.
       destruct (existsb (gone sb sr b r) sb); reflexivity.
     + destruct ob; reflexivity.
   - (* only the left side has a diff *)
@@ -546,6 +562,14 @@ Proof.
       inversion Eb; subst b' or sr.
       destruct (cellwise_of_pointwise sb sb sb (Some b) b b (col sb b) (fun c => cell_merge_agree _ _)) as [C R].
       unfold spec_row. rewrite C, R. reflexivity.
+Qed.
+
+Theorem row_merge_refines_spec : forall sb sl sr ob ol or,
+  schemas_ok sb sl sr -> conv_ok sl sr ol or -> delete_visible sb sl sr ob ol or ->
+  row_merge true sb sl sr ob ol or
+  = ROk (fst (spec_row sb sl sr ob ol or)) (snd (spec_row sb sl sr ob ol or)).
+Proof.
+  intros sb sl sr ob ol or Hs Cv Dv. apply row_merge_refines_spec_exact; auto. apply delete_visible_exact. exact Dv.
 Qed.
 
 (* ---------- conflict_iff ---------- *)
@@ -802,3 +826,375 @@ Example oracle_accepts_model :
               i_r := [(1, [Some 1; Some 8; None]); (2, [Some 2; Some 6; Some 1]); (3, [Some 0; None; None]); (4, [Some 4; Some 5; None])] |} in
   check_case (i, model_obs i) = 0.
 Proof. vm_compute. reflexivity. Qed.
+
+(* ====================================================================== *)
+(* Round 2: full merge_swap, the schema class, decidable scope, oracle_on_model *)
+(* ====================================================================== *)
+
+(* ---------- column-name-indexed view of a row ---------- *)
+Lemma col_cons x s v r c : col (x :: s) (v :: r) c = if x =? c then Some v else col s r c.
+Proof.
+  unfold col. cbn [index_of]. destruct (x =? c); [reflexivity|]. destruct (index_of c s); reflexivity.
+Qed.
+
+Lemma col_map (f : N -> cell) s c : col s (map f s) c = if mem c s then Some (f c) else None.
+Proof.
+  induction s as [|x s IH]; [reflexivity|]. cbn [map]. rewrite col_cons.
+  unfold mem. cbn [existsb]. fold (mem c s). rewrite (N.eqb_sym c x).
+  destruct (N.eqb_spec x c); cbn [orb]; [subst; reflexivity|exact IH].
+Qed.
+
+Lemma mem_merged_swap c sb sl sr : mem c (merged_schema sb sl sr) = mem c (merged_schema sb sr sl).
+Proof. rewrite !mem_merged. destruct (mem c sb), (mem c sl), (mem c sr); reflexivity. Qed.
+
+Lemma cell_merge_sym b l r : cell_merge b l r = cell_merge b r l.
+Proof.
+  unfold cell_merge.
+  destruct (ocell_eqb_spec l r), (ocell_eqb_spec r l), (ocell_eqb_spec l b), (ocell_eqb_spec r b);
+    subst; try reflexivity; congruence.
+Qed.
+
+Lemma clash_at_sym sb sl sr ob l r c : clash_at sb sl sr ob l r c = clash_at sb sr sl ob r l c.
+Proof. unfold clash_at. rewrite cell_merge_sym. reflexivity. Qed.
+
+Lemma cellwise_conflict_sym sb sl sr ob l r :
+  cellwise_conflict sb sl sr ob l r = cellwise_conflict sb sr sl ob r l.
+Proof.
+  apply eq_true_iff_eq. unfold cellwise_conflict. rewrite !existsb_exists.
+  split; intros [c [Hin Hc]]; exists c; (split; [rewrite !in_app_iff in *; tauto|]).
+  - rewrite <- clash_at_sym. exact Hc.
+  - rewrite clash_at_sym. exact Hc.
+Qed.
+
+(* two optional rows stored in different column orders hold the same data: both absent or both
+   present, and every column name reads the same optional cell *)
+Definition same_data (s1 : schema) (o1 : option row) (s2 : schema) (o2 : option row) : Prop :=
+  (o1 = None <-> o2 = None) /\ forall c, ocol s1 o1 c = ocol s2 o2 c.
+
+Lemma same_data_none s1 s2 : same_data s1 None s2 None.
+Proof. split; [tauto|reflexivity]. Qed.
+
+Lemma same_data_remap sb sl sr s x :
+  same_data (merged_schema sb sl sr) (Some (remap (merged_schema sb sl sr) s x))
+            (merged_schema sb sr sl) (Some (remap (merged_schema sb sr sl) s x)).
+Proof.
+  split; [split; discriminate|]. intro c. cbn [ocol]. unfold remap. rewrite !col_map, mem_merged_swap. reflexivity.
+Qed.
+
+(* the declarative merge is symmetric: same conflict verdict, and without conflict the same data *)
+Lemma spec_swap sb sl sr ob ol or :
+  snd (spec_row sb sl sr ob ol or) = snd (spec_row sb sr sl ob or ol)
+  /\ (snd (spec_row sb sl sr ob ol or) = false ->
+      same_data (merged_schema sb sl sr) (fst (spec_row sb sl sr ob ol or))
+                (merged_schema sb sr sl) (fst (spec_row sb sr sl ob or ol))).
+Proof.
+  unfold spec_row. destruct ol as [l|], or as [r|].
+  - rewrite (cellwise_conflict_sym sb sl sr ob l r).
+    assert (D : same_data (merged_schema sb sl sr) (Some (cellwise_row sb sl sr (merged_schema sb sl sr) ob l r))
+                          (merged_schema sb sr sl) (Some (cellwise_row sb sr sl (merged_schema sb sr sl) ob r l))).
+    { split; [split; discriminate|]. intro c. cbn [ocol]. unfold cellwise_row.
+      rewrite !col_map, mem_merged_swap. destruct (mem c (merged_schema sb sr sl)); [|reflexivity].
+      rewrite cell_merge_sym. reflexivity. }
+    destruct ob; destruct (cellwise_conflict _ _ _ _ _ _); cbn [fst snd]; split; try reflexivity; intro H; try discriminate; exact D.
+  - destruct ob as [b|]; cbn [fst snd].
+    + destruct (modified sb sl b l); cbn [fst snd]; split; try reflexivity; intro H; try discriminate. apply same_data_none.
+    + split; [reflexivity|]. intros _. apply same_data_remap.
+  - destruct ob as [b|]; cbn [fst snd].
+    + destruct (modified sb sr b r); cbn [fst snd]; split; try reflexivity; intro H; try discriminate. apply same_data_none.
+    + split; [reflexivity|]. intros _. apply same_data_remap.
+  - destruct ob; cbn [fst snd]; split; try reflexivity; intros _; apply same_data_none.
+Qed.
+
+(* on a conflict the table keeps our version, rewritten into the merged schema *)
+Lemma spec_conflict_ours sb sl sr ob ol or :
+  snd (spec_row sb sl sr ob ol or) = true ->
+  fst (spec_row sb sl sr ob ol or) = option_map (remap (merged_schema sb sl sr) sl) ol.
+Proof.
+  unfold spec_row. destruct ob as [b|], ol as [l|], or as [r|]; cbn [fst snd option_map]; try discriminate; try reflexivity.
+  - destruct (cellwise_conflict _ _ _ _ _ _); cbn [fst snd]; [reflexivity|discriminate].
+  - destruct (modified sb sl b l); cbn [fst snd]; [reflexivity|discriminate].
+  - destruct (cellwise_conflict _ _ _ _ _ _); cbn [fst snd]; [reflexivity|discriminate].
+Qed.
+
+Lemma delete_exact_sym sb sl sr ob ol or : delete_exact sb sl sr ob ol or -> delete_exact sb sr sl ob or ol.
+Proof. unfold delete_exact. destruct ob, ol, or; auto. Qed.
+
+(* merge_swap (full, in the class): for every schema triple with schemas_ok, all tables and every key
+   inside the data scope (conv_ok, delete_exact — the complements of the open findings): swapping the
+   two sides records a conflict for the same keys with mirrored entries (same ancestor row, each
+   direction's "theirs" is the other's own row, each "ours" is its own row in its merged schema), and
+   on every other key the two merged tables hold the same data, column name by column name. *)
+Theorem merge_swap : forall sb sl sr b l r k,
+  schemas_ok sb sl sr -> conv_ok sl sr (get k l) (get k r) ->
+  delete_exact sb sl sr (get k b) (get k l) (get k r) ->
+  let M1 := table_merge true sb sl sr b l r in
+  let M2 := table_merge true sb sr sl b r l in
+  match getc k (m_conf M1), getc k (m_conf M2) with
+  | None, None =>
+      same_data (merged_schema sb sl sr) (get k (m_rows M1)) (merged_schema sb sr sl) (get k (m_rows M2))
+  | Some (b1, o1, t1), Some (b2, o2, t2) =>
+      b1 = b2 /\ t1 = get k r /\ t2 = get k l
+      /\ o1 = option_map (remap (merged_schema sb sl sr) sl) (get k l)
+      /\ o2 = option_map (remap (merged_schema sb sr sl) sr) (get k r)
+  | _, _ => False
+  end.
+Proof.
+  intros sb sl sr b l r k Hs Cv Dx M1 M2. subst M1 M2.
+  rewrite !conflicts_exact, !table_merge_get. unfold merge_key.
+  rewrite (row_merge_refines_spec_exact _ _ _ _ _ _ Hs Cv Dx).
+  rewrite (row_merge_refines_spec_exact _ _ _ _ _ _ (schemas_ok_sym _ _ _ Hs) (conv_ok_sym _ _ _ _ Cv) (delete_exact_sym _ _ _ _ _ _ Dx)).
+  destruct (spec_swap sb sl sr (get k b) (get k l) (get k r)) as [E D].
+  pose proof (spec_conflict_ours sb sl sr (get k b) (get k l) (get k r)) as O1.
+  pose proof (spec_conflict_ours sb sr sl (get k b) (get k r) (get k l)) as O2.
+  rewrite <- E in *.
+  destruct (snd (spec_row sb sl sr (get k b) (get k l) (get k r))).
+  - rewrite O1, O2 by reflexivity. auto.
+  - apply D. reflexivity.
+Qed.
+
+(* ---------- the schema class, decidably ---------- *)
+Fixpoint schema_eqb (a b : schema) : bool :=
+  match a, b with
+  | [], [] => true
+  | x :: a', y :: b' => (x =? y) && schema_eqb a' b'
+  | _, _ => false
+  end.
+
+Lemma schema_eqb_eq a b : schema_eqb a b = true <-> a = b.
+Proof.
+  revert b; induction a as [|x a IH]; intros [|y b]; cbn [schema_eqb]; split; intro H; try congruence; try discriminate.
+  - apply andb_true_iff in H as [H1 H2]. apply N.eqb_eq in H1. apply IH in H2. congruence.
+  - inversion H; subst. rewrite N.eqb_refl. apply IH. reflexivity.
+Qed.
+
+(* exactly schemas_ok *)
+Definition schemas_okb (sb sl sr : schema) : bool :=
+  (side_flag sb sl sr || schema_eqb sl sb) && (side_flag sb sr sl || schema_eqb sr sb).
+
+Lemma schemas_okb_iff sb sl sr : schemas_okb sb sl sr = true <-> schemas_ok sb sl sr.
+Proof.
+  unfold schemas_okb, schemas_ok. rewrite andb_true_iff, !orb_true_iff, !schema_eqb_eq. split.
+  - intros [A B]. split; intro H; [destruct A as [A|A]|destruct B as [B|B]]; congruence.
+  - intros [A B]. split.
+    + destruct (side_flag sb sl sr); [left; reflexivity|right; apply A; reflexivity].
+    + destruct (side_flag sb sr sl); [left; reflexivity|right; apply B; reflexivity].
+Qed.
+
+Lemma forallb_false_ex {A} (f : A -> bool) l : forallb f l = false -> exists x, In x l /\ f x = false.
+Proof.
+  induction l as [|x l IH]; cbn [forallb]; [discriminate|].
+  destruct (f x) eqn:E; cbn [andb]; intro H.
+  - destruct (IH H) as [y [Hy Fy]]. exists y. split; [right; exact Hy|exact Fy].
+  - exists x. split; [left; reflexivity|exact E].
+Qed.
+
+(* a side whose column SET differs from the ancestor's carries the schema-change flag *)
+Lemma flag_of_set_change sb s s' :
+  (forall c, In c sb -> In c s -> True) ->
+  same_cols s sb = false -> (forall c, In c sb -> In c s') -> side_flag sb s s' = true.
+Proof.
+  intros _ H Hs'. unfold same_cols in H. unfold side_flag. apply orb_true_iff.
+  apply andb_false_iff in H as [H|H]; apply forallb_false_ex in H as [c [Hin Hc]].
+  - left. apply existsb_exists. exists c. split; [exact Hin|]. rewrite Hc. reflexivity.
+  - right. apply existsb_exists. exists c. split; [apply Hs'; exact Hin|].
+    rewrite Hc. apply mem_In in Hin. rewrite Hin. reflexivity.
+Qed.
+
+(* The readable class of the property: one side keeps the ancestor's column list; the other side
+   keeps it too, or changes the column SET (adds columns at any position, drops columns, possibly
+   moving others while doing so).  A pure move (same set, different list) is outside the class —
+   reorder_update_lost shows that it must be.  Both sides dropping the same column is outside too
+   (neither side is flagged although both rewrote every row). *)
+Definition compatb (sb sl sr : schema) : bool :=
+  (schema_eqb sl sb && (schema_eqb sr sb || negb (same_cols sr sb)))
+  || (schema_eqb sr sb && (schema_eqb sl sb || negb (same_cols sl sb))).
+
+Lemma compat_left_base sb sr :
+  (schema_eqb sr sb || negb (same_cols sr sb)) = true -> schemas_ok sb sb sr.
+Proof.
+  intro H. split; [intros _; reflexivity|]. intro F.
+  apply orb_true_iff in H as [H|H]; [apply schema_eqb_eq; exact H|].
+  apply negb_true_iff in H. rewrite (flag_of_set_change sb sr sb) in F; [discriminate|auto|exact H|auto].
+Qed.
+
+Theorem compat_schemas_ok : forall sb sl sr, compatb sb sl sr = true -> schemas_ok sb sl sr.
+Proof.
+  intros sb sl sr H. unfold compatb in H. apply orb_true_iff in H as [H|H]; apply andb_true_iff in H as [E H];
+    apply schema_eqb_eq in E; subst.
+  - apply compat_left_base. exact H.
+  - apply schemas_ok_sym. apply compat_left_base. exact H.
+Qed.
+
+Example compat_add_anywhere : compatb [0;1;2] [0;1;2] [9;0;1;2] = true /\ compatb [0;1;2] [0;9;1;2] [0;1;2] = true.
+Proof. split; reflexivity. Qed.
+Example compat_drop : compatb [0;1;2] [0;2] [0;1;2] = true.
+Proof. reflexivity. Qed.
+Example compat_add_and_move : compatb [0;1;2] [0;1;2] [2;9;0;1] = true.
+Proof. reflexivity. Qed.
+Example compat_not_pure_move : compatb [0;1] [1;0] [0;1] = false /\ schemas_okb [0;1] [1;0] [0;1] = false.
+Proof. split; reflexivity. Qed.
+Example schemas_ok_not_both_drop : schemas_okb [0;1] [0] [0] = false.
+Proof. reflexivity. Qed.
+
+(* ---------- the data scope, decidably: the complements of the open findings ---------- *)
+Definition conv_okb (sl sr : schema) (ol or : option row) : bool :=
+  match ol, or with
+  | Some l, Some r => negb (row_eqb l r) || schema_eqb sl sr     (* byte-identical tuples only under one column list *)
+  | _, _ => true
+  end.
+
+Lemma conv_okb_ok sl sr ol or : conv_okb sl sr ol or = true -> conv_ok sl sr ol or.
+Proof.
+  unfold conv_okb, conv_ok. intros H x E1 E2. subst. apply orb_true_iff in H as [H|H].
+  - apply negb_true_iff in H. assert (row_eqb x x = true) by (apply row_eqb_eq; reflexivity). congruence.
+  - apply schema_eqb_eq. exact H.
+Qed.
+
+Definition delete_exactb (sb sl sr : schema) (ob ol or : option row) : bool :=
+  match ob, ol, or with
+  | Some b, None, Some r => Bool.eqb (modified sb sr b r) (existsb (gone sb sr b r) sb)
+  | Some b, Some l, None => Bool.eqb (modified sb sl b l) (existsb (gone sb sl b l) sb)
+  | _, _, _ => true
+  end.
+
+Lemma delete_exactb_ok sb sl sr ob ol or : delete_exactb sb sl sr ob ol or = true -> delete_exact sb sl sr ob ol or.
+Proof.
+  unfold delete_exactb, delete_exact. destruct ob, ol, or; auto; apply eqb_prop.
+Qed.
+
+Definition in_scope (sb sl sr : schema) (ob ol or : option row) : bool :=
+  schemas_okb sb sl sr && conv_okb sl sr ol or && delete_exactb sb sl sr ob ol or.
+
+Lemma in_scope_ok sb sl sr ob ol or : in_scope sb sl sr ob ol or = true ->
+  schemas_ok sb sl sr /\ conv_ok sl sr ol or /\ delete_exact sb sl sr ob ol or.
+Proof.
+  unfold in_scope. rewrite !andb_true_iff. intros [[A B] C].
+  split; [apply schemas_okb_iff; exact A|]. split; [apply conv_okb_ok; exact B|apply delete_exactb_ok; exact C].
+Qed.
+
+Lemma conv_okb_sym sl sr ol or : conv_okb sl sr ol or = conv_okb sr sl or ol.
+Proof.
+  unfold conv_okb. destruct ol as [l|], or as [r|]; try reflexivity.
+  assert (E1 : row_eqb l r = row_eqb r l).
+  { apply eq_true_iff_eq. rewrite !row_eqb_eq. split; congruence. }
+  assert (E2 : schema_eqb sl sr = schema_eqb sr sl).
+  { apply eq_true_iff_eq. rewrite !schema_eqb_eq. split; congruence. }
+  rewrite E1, E2. reflexivity.
+Qed.
+
+Lemma in_scope_sym sb sl sr ob ol or : in_scope sb sl sr ob ol or = in_scope sb sr sl ob or ol.
+Proof.
+  unfold in_scope, schemas_okb. rewrite (conv_okb_sym sl sr).
+  assert (E : delete_exactb sb sl sr ob ol or = delete_exactb sb sr sl ob or ol) by (destruct ob, ol, or; reflexivity).
+  rewrite E. destruct (side_flag sb sl sr || schema_eqb sl sb), (side_flag sb sr sl || schema_eqb sr sb); reflexivity.
+Qed.
+
+(* conflict_iff, lifted: the hypotheses are three decidable predicates (in_scope); delete_exact is the
+   exact boundary of the delete-vs-modify case (conflict_iff_boundary below).  Full statement (for every
+   table in the schema class, without the data scope) is FALSE: conflict_iff_refuted,
+   byte_coincidence_refuted, reorder_update_lost. *)
+Theorem conflict_iff_in_scope : forall sb sl sr b l r k,
+  in_scope sb sl sr (get k b) (get k l) (get k r) = true ->
+  (exists e, getc k (m_conf (table_merge true sb sl sr b l r)) = Some e)
+  <-> conflict_prop sb sl sr (get k b) (get k l) (get k r).
+Proof.
+  intros sb sl sr b l r k H. apply in_scope_ok in H as [Hs [Cv Dx]].
+  rewrite conflicts_exact. unfold merge_key.
+  rewrite (row_merge_refines_spec_exact _ _ _ _ _ _ Hs Cv Dx). rewrite <- spec_conflict_iff.
+  destruct (snd (spec_row sb sl sr (get k b) (get k l) (get k r))); split; intro H; try discriminate; eauto.
+  destruct H as [e H]. discriminate.
+Qed.
+
+(* delete_exact is necessary: when one side deleted the row and the other side's diff reaches
+   TryMerge, the recorded verdict is "some ancestor column changed", so conflict_iff holds for that
+   key exactly when delete_exact does. *)
+Theorem conflict_iff_boundary : forall sb sl sr b r,
+  side_diff (side_flag sb sr sl) (Some b) (Some r) = true ->
+  ((exists v, row_merge true sb sl sr (Some b) None (Some r) = ROk v true)
+   <-> conflict_prop sb sl sr (Some b) None (Some r))
+  <-> delete_exact sb sl sr (Some b) None (Some r).
+Proof.
+  intros sb sl sr b r Dr.
+  assert (R : row_merge true sb sl sr (Some b) None (Some r) = ROk None (existsb (gone sb sr b r) sb)).
+  { unfold row_merge. rewrite Dr. cbn [side_diff]. unfold try_merge.
+    rewrite (base_pass_exists _ (gone sb sr b r)) by (intro c; apply base_col_right_only).
+    destruct (existsb (gone sb sr b r) sb); reflexivity. }
+  rewrite R. rewrite <- spec_conflict_iff. unfold spec_row, delete_exact. cbn [snd].
+  destruct (modified sb sr b r), (existsb (gone sb sr b r) sb).
+  - split; intro H; [reflexivity|]. split; [reflexivity|intros _; exists None; reflexivity].
+  - split; intro H; [|discriminate]. destruct H as [_ H]. destruct (H eq_refl) as [v Hv]. discriminate.
+  - split; intro H; [|discriminate]. destruct H as [H _]. specialize (H (ex_intro _ None eq_refl)). discriminate.
+  - split; intro H; [reflexivity|]. split; [intros [v Hv]; discriminate|discriminate].
+Qed.
+
+(* ---------- oracle_on_model ---------- *)
+Lemma orow_eqb_refl a : orow_eqb a a = true.
+Proof. destruct a; cbn [orow_eqb]; [apply row_eqb_eq|]; reflexivity. Qed.
+
+Lemma orow_agree_refl s o : orow_agree s o s o = true.
+Proof.
+  destruct o; cbn [orow_agree]; [|reflexivity]. apply forallb_forall. intros c _. apply ocell_eqb_refl.
+Qed.
+
+Lemma same_cols_refl s : same_cols s s = true.
+Proof. unfold same_cols. apply andb_true_iff. split; apply forallb_forall; intros c Hc; apply mem_In; exact Hc. Qed.
+
+Lemma same_cols_merged_swap sb sl sr : same_cols (merged_schema sb sl sr) (merged_schema sb sr sl) = true.
+Proof.
+  unfold same_cols. apply andb_true_iff. split; apply forallb_forall; intros c Hc; apply mem_In in Hc.
+  - rewrite <- mem_merged_swap. exact Hc.
+  - rewrite mem_merged_swap. exact Hc.
+Qed.
+
+Lemma same_data_agree s1 o1 s2 o2 : same_data s1 o1 s2 o2 -> orow_agree s1 o1 s2 o2 = true.
+Proof.
+  intros [P D]. destruct o1 as [r1|], o2 as [r2|]; cbn [orow_agree].
+  - apply forallb_forall. intros c _. specialize (D c). cbn [ocol] in D. rewrite D. apply ocell_eqb_refl.
+  - destruct P as [_ P]. specialize (P eq_refl). discriminate.
+  - destruct P as [P _]. specialize (P eq_refl). discriminate.
+  - reflexivity.
+Qed.
+
+Lemma dir_ok_model sb sl sr b l r :
+  (forall k, in_scope sb sl sr (get k b) (get k l) (get k r) = true) ->
+  dir_ok sb sl sr b l r (model_dir sb sl sr b l r) = true.
+Proof.
+  intro H. unfold dir_ok, model_dir. rewrite merge_total. cbv iota. cbn [d_class d_sm d_rows d_conf].
+  rewrite !andb_true_iff. split; [split; [split|]|].
+  - destruct (m_conf _); reflexivity.
+  - apply same_cols_refl.
+  - destruct (m_conf _); reflexivity.
+  - apply forallb_forall. intros k _.
+    destruct (in_scope_ok _ _ _ _ _ _ (H k)) as [Hs [Cv Dx]].
+    rewrite table_merge_get, conflicts_exact. unfold merge_key.
+    rewrite (row_merge_refines_spec_exact _ _ _ _ _ _ Hs Cv Dx).
+    destruct (spec_row sb sl sr (get k b) (get k l) (get k r)) as [v c]. cbn [fst snd].
+    rewrite orow_agree_refl. destruct c; cbn [andb negb]; rewrite ?orow_eqb_refl, ?orow_agree_refl; reflexivity.
+Qed.
+
+Lemma swap_ok_model sb sl sr b l r :
+  (forall k, in_scope sb sl sr (get k b) (get k l) (get k r) = true) ->
+  swap_ok sl sr (model_dir sb sl sr b l r) (model_dir sb sr sl b r l) = true.
+Proof.
+  intro H. unfold swap_ok, model_dir. rewrite !merge_total. cbv iota. cbn [d_class d_sm d_rows d_conf].
+  apply orb_true_iff. right. apply andb_true_iff. split; [apply same_cols_merged_swap|].
+  apply forallb_forall. intros k _.
+  destruct (in_scope_ok _ _ _ _ _ _ (H k)) as [Hs [Cv Dx]].
+  pose proof (merge_swap sb sl sr b l r k Hs Cv Dx) as MS. cbv zeta in MS.
+  destruct (getc k (m_conf (table_merge true sb sl sr b l r))) as [[[b1 o1] t1]|];
+    destruct (getc k (m_conf (table_merge true sb sr sl b r l))) as [[[b2 o2] t2]|]; try contradiction.
+  - destruct MS as [E1 [E2 [E3 [E4 E5]]]]. subst. rewrite orow_eqb_refl, !orow_agree_refl. reflexivity.
+  - apply same_data_agree. exact MS.
+Qed.
+
+(* oracle_on_model: on every input all of whose keys are inside the decidable scope, the executable
+   statement of the property accepts the model's own observation (both directions and the swap). *)
+Theorem oracle_on_model : forall i,
+  (forall k, in_scope (i_sb i) (i_sl i) (i_sr i) (get k (i_b i)) (get k (i_l i)) (get k (i_r i)) = true) ->
+  oracle i (model_obs i) = true.
+Proof.
+  intros i H. unfold oracle, model_obs. cbn [o_lr o_rl].
+  rewrite dir_ok_model by exact H.
+  rewrite dir_ok_model by (intro k; rewrite <- in_scope_sym; apply H).
+  rewrite swap_ok_model by exact H. reflexivity.
+Qed.
